@@ -9,7 +9,7 @@ from vf.runner import Acc, filler
 PROPERTY = "C14"
 CONCUR_FILES = ('bits/ecmath.py', 'bits/utils.py', 'bits/keys.py')
 # (thread a, thread b), warm-up: indices into seq_ops() - the ordinary single-case checks run concurrently (vf/concur.py)
-CONCUR_SCEN = [((0, 6), ()), ((2, 2), (0,)), ((1, 7), (5,))]
+CONCUR_SCEN = [((0, 6), ()), ((2, 2), (0,)), ((1, 7), (5,)), ((0, 6, 2), ())]   # the last one: three threads
 LEVEL = "exploration"
 ENGINES = ["E2-small-curve", "E1-scope-enumerator"]
 RULE = ("SEC1 on small curves: every point -> both encodings -> decode -> re-encode; EVERY candidate buffer of length "
@@ -250,7 +250,7 @@ def run_job(job):
         return run_concur_job(job, scens, run_case, PROPERTY, CONCUR_FILES)
     if job["part"] == "seq":
         from vf.runner import run_seq_job
-        return run_seq_job(job, seq_ops(job), run_case)
+        return run_seq_job(job, seq_ops(job), run_case, depth=3 if job["tier"] == "quick" else 4)
     acc = Acc(job)
     part, seed, cv = job["part"], job["seed"], job.get("curve")
     if part == "sec1":
